@@ -258,7 +258,7 @@ def _is_full(leaves, pre, post, n):
     return (pre + (n,) + post) not in leaves and (pre + (n - 1,) + post) in leaves
 
 
-def argdiffs_for(node, old_args, new_args, enc, retag_unknown=False, trace_level=True):
+def argdiffs_for(node, old_args, new_args, enc, retag_unknown=False, trace_level=True, flag_enc=None):
     """Argdiffs for an edit.  For a closure root the trace belongs to the inner
     function, so trace-level APIs need the stored arguments (and keyword dict)
     prepended; `closure.edit` itself takes the remaining ones only."""
@@ -266,7 +266,7 @@ def argdiffs_for(node, old_args, new_args, enc, retag_unknown=False, trace_level
     out = []
     changed_any = False
     for o, nw, t in zip(old_args, new_args, ins):
-        v = build.to_jax(nw, t, enc)
+        v = build.to_jax(nw, t, flag_enc if (flag_enc and t == ["B"]) else enc)
         changed = o != nw
         changed_any = changed_any or changed
         if changed or retag_unknown:
@@ -340,6 +340,7 @@ class Session:
         self.cons = constrainable(self.node)
         self.pp = prog_props(self.node)
         self.has_vec = has_kind(self.node, ("vmap", "repeat") + ref.SCAN_LIKE)
+        self.has_mask = has_kind(self.node, ("mask", "masked_iterate", "masked_iterate_final"))
         self.swmap = {a: s for a, s in ref.switch_map(self.node).items() if s}
         self.pair_checks = script.get("pid") in ("C38",)
         self.assess_all = script.get("pid") in ("C01", "C02", "C23")
@@ -390,6 +391,16 @@ class Session:
 
     def jargs(self, args, enc):
         return tuple(build.to_jax(v, t, enc) for v, t in zip(args, self.ins))
+
+    def flag_enc_of(self, rec):
+        """In programs with a mask, edits present Boolean (flag) arguments in the
+        encoding the trace was created with: the pytree structure of a MaskTrace
+        depends on it (known finding KF06), so mixing encodings of one flag across
+        operations is left to KF06's witness instead of flooding every session.
+        Scripts without "enc_sticky" (hand-written witnesses) mix freely."""
+        if not self.script.get("enc_sticky") or not self.has_mask:
+            return None
+        return getattr(rec, "flag_enc", None)
 
     def check_trace(self, tr, args, step, rep, what, enc, staged=None):
         """Per-trace invariants: C22 address set, C02 score, C01 assess, retval.
@@ -582,6 +593,7 @@ class Session:
                         self.viol("C38.generate-crash", {"C38"}, i, rep, "generate raised %s" % type(e).__name__, "crash")
         if rec is None:
             return {"op": st["op"], "outcome": "unobservable"}
+        rec.flag_enc = enc
         rep.slots[st["out"]] = rec
         ev.update(trace_event(rec))
         ev["outcome"] = "ok"
@@ -731,8 +743,9 @@ class Session:
         retag = "tag:unknown" in perts and op not in ("index_edit",) and not has_kind(self.node, ("switch", "or_else"))
         if retag:
             self.fire("tag:unknown")
-        argdiffs, changed = argdiffs_for(self.node, src.args, new_args, enc, retag)
-        self._closure_argdiffs, _ = argdiffs_for(self.node, src.args, new_args, enc, retag, trace_level=False)
+        fe = self.flag_enc_of(src)
+        argdiffs, changed = argdiffs_for(self.node, src.args, new_args, enc, retag, flag_enc=fe)
+        self._closure_argdiffs, _ = argdiffs_for(self.node, src.args, new_args, enc, retag, trace_level=False, flag_enc=fe)
         try:
             req = self.make_request(st, perts, enc)
         except HarnessError:
@@ -760,6 +773,7 @@ class Session:
             ev["outcome"] = "unobservable"
             return ev
         rec.edit = {"src": src, "bwd": bwd, "w": np.asarray(w), "old_args": src.args, "changed": changed, "op": op}
+        rec.flag_enc = getattr(src, "flag_enc", None)
         rep.slots[st["out"]] = rec
         ev.update(trace_event(rec))
         ev["outcome"] = "ok"
@@ -943,7 +957,7 @@ class Session:
         src = e["src"]
         bwd = e["bwd"]
         tr = self.boundary(rep, perts, tgt, i)
-        argdiffs, changed = argdiffs_for(self.node, tgt.args, src.args, enc, False)
+        argdiffs, changed = argdiffs_for(self.node, tgt.args, src.args, enc, False, flag_enc=self.flag_enc_of(tgt))
         try:
             (rtr, w, rd, bwd2), staged = self.run_staged(rep, perts, lambda k, t, r, ad: r.edit(k, t, ad), st["key"], tr, bwd, argdiffs)
         except Exception as ex:
@@ -968,6 +982,7 @@ class Session:
         if np.isfinite(np.asarray(w)) and np.isfinite(e["w"]) and not obs.close(w, -e["w"]):
             self.viol("C06.undo-weight", up, i, rep, "undo weight %s vs -forward weight %s (op %s)" % (np.asarray(w), -e["w"], e["op"]))
         rec.edit = {"src": tgt, "bwd": bwd2, "w": np.asarray(w), "old_args": tgt.args, "changed": changed, "op": "undo"}
+        rec.flag_enc = getattr(tgt, "flag_enc", None)
         rep.slots[st["out"]] = rec
         ev.update(trace_event(rec))
         ev["outcome"] = "ok"
